@@ -13,9 +13,9 @@ raiseGuardViolations).
 
 from __future__ import annotations
 
-import random
-
+import itertools
 import os
+import random
 
 from hypothesis import strategies as st
 
@@ -164,8 +164,18 @@ def programs(draw):
 
     behaviors = []
     for i in range(nb):
-        shape = draw(st.integers(0, 3))
-        if shape == 0:
+        shape = draw(st.integers(0, 4))
+        if shape == 4 and i + 1 < nb:
+            # guards around plain sub-behaviour invocations (no try-interrupt in between)
+            b = []
+            for _ in range(draw(st.integers(2, 4))):
+                kk = draw(st.sampled_from(["take", "do", "do", "do_for", "wait_for", "do_until"]))
+                sub_ = ["B%d" % draw(st.integers(i + 1, nb - 1))]
+                b.append(act() if kk == "take" else ["do", sub_] if kk == "do"
+                         else ["do_for", sub_, *dur()] if kk == "do_for"
+                         else ["wait_for", *dur()] if kk == "wait_for"
+                         else ["do_until", sub_, cond()])
+        elif shape == 0 or shape == 4:
             b = body(i, 0, False, False, 3)
         elif shape == 1:
             b = [["while", None, body(i, 0, True, False, 3)]]
@@ -181,7 +191,7 @@ def programs(draw):
         if not has_yielding(b):
             b.append(act())
         pre = [gcond()] if draw(st.integers(0, 3)) == 0 else []
-        inv = [gcond()] if draw(st.integers(0, 2)) == 0 else []
+        inv = [gcond()] if draw(st.integers(0, 2)) == 0 or shape == 4 else []
         if inv and draw(st.integers(0, 4)) == 0:
             inv.append(gcond())
         behaviors.append({"name": f"B{i}", "pre": pre, "inv": inv, "body": b})
@@ -272,9 +282,7 @@ NONTRIVIAL = {"handler-preempted-by-handler", "ctl-in-try:break", "ctl-in-try:co
 DEFECT_SLUGS = {"ti_inv": "inv-under-try", "ti_flags": "brkflags", "ti_return2": "return2"}
 DEFECTS = []
 for _n in (1, 2, 3):
-    import itertools as _it
-
-    for _c in _it.combinations(sorted(DEFECT_SLUGS), _n):
+    for _c in itertools.combinations(sorted(DEFECT_SLUGS), _n):
         DEFECTS.append(({d: True for d in _c},
                         "defect:" + "+".join(sorted(DEFECT_SLUGS[d] for d in _c))))
 
@@ -428,10 +436,7 @@ def judge(case, cap=None):
                     sig = f"{title}|wrong-run"
                     break
             if sig is None:
-                cell = c12.primary(feats)
-                if "return-under-2-try" in sfeats and "ctl-in-try:return" in feats:
-                    cell = "nested-try:return-crosses-two-statements"
-                sig = f"{cell}|{syms[0]}"
+                sig = f"{c12.primary(feats)}|{syms[0]}"
             sym = syms
         ent = fails.setdefault(sig, {"count": 0})
         ent["count"] += 1
